@@ -18,6 +18,8 @@ CONSTANTS
   WrongKinds = {}
   MsgBudget = 2
   InitSerial = 0
+  Senders = {0, 1}
+  PoolKinds = {"live", "dead", "never"}
   ScriptSel = "svc"
   V0 = 20
   V1 = 20
